@@ -211,9 +211,8 @@ func (self *DbImpl) Stats() bbolt.Stats {
 }
 
 func (self *DbImpl) RootBucket(tx *bbolt.Tx) (*bbolt.Bucket, error) {
-	self.reloadLock.RLock()
-	defer self.reloadLock.RUnlock()
-
+	// no reloadLock here: tx was started by View/Update/Batch, which hold the read lock for the
+	// whole transaction; taking it again deadlocks with a restore waiting for the write lock
 	rootBucket := tx.Bucket([]byte(self.rootBucket))
 	if rootBucket == nil {
 		return nil, fmt.Errorf("db missing root bucket [%v]", self.rootBucket)
@@ -242,9 +241,8 @@ func (self *DbImpl) Snapshot(path string) (string, string, error) {
 }
 
 func (self *DbImpl) SnapshotInTx(tx *bbolt.Tx, path string) (string, string, error) {
-	self.reloadLock.RLock()
-	defer self.reloadLock.RUnlock()
-
+	// no reloadLock here: tx was started by View/Update/Batch, which hold the read lock for the
+	// whole transaction; taking it again deadlocks with a restore waiting for the write lock
 	now := time.Now()
 	dateStr := now.Format("20060102")
 	timeStr := now.Format("150405")
